@@ -135,6 +135,22 @@ theorem parse_span_table_ok (c : Ctx) (hl : LitOk c) (fuel : Nat) (hf : 32 * ble
   rw [h] at h0
   exact fun x hx => ⟨h0 x hx, characterRange_ok _ _ (h0 x hx)⟩
 
+/-- `Parser::parse_signature` (src/parser/signature.rs, the entry point for the
+signature texts of registered functions) is total as well: a tree or a
+`ParseError` citing spans of the source; never a panic, never out of fuel. No
+literal is decoded on this path, so nothing is assumed about the oracle. -/
+theorem parse_signature_total (c : Ctx) (fuel : Nat) (hf : 32 * blen c.src + 1 ≤ fuel) :
+    (∃ t sp, parseSignatureWith c fuel = .tree t sp ∧ ∀ x ∈ sp, SpanOk c.src x) ∨
+    (∃ e sp, parseSignatureWith c fuel = .error e sp ∧ SpanOk c.src e.span ∧
+      ∀ x, e.hint = some x → SpanOk c.src x) := by
+  have h := parseSignatureWith_ok lex_ok fuel hf
+  revert h
+  cases parseSignatureWith c fuel with
+  | tree t sp => exact fun h => Or.inl ⟨t, sp, rfl, h⟩
+  | error e sp => exact fun h => Or.inr ⟨e, sp, rfl, h.1, h.2⟩
+  | panic => exact False.elim
+  | fuel => exact False.elim
+
 /-- the context of the non-vacuity examples: ASCII predicates, every literal decodes -/
 def exCtx (src : List Char) : Ctx :=
   ⟨src, ⟨fun c => c.isAlpha, fun c => c.isAlphanum, fun c => c == ' '⟩, fun _ _ _ => none, []⟩
@@ -158,6 +174,9 @@ example : LitOk ⟨['"', '\\', 'q', '"'], ⟨fun _ => false, fun _ => false, fun
 
 /-- … the empty source parses to the empty tree … -/
 example : parse (exCtx []) = .tree (.n "Tree" []) [] := by rfl
+
+/-- … the empty text is not a signature: `EndOfInput` at `0..0` … -/
+example : parseSignature (exCtx []) = .error ⟨.endOfInput, (0, 0), none⟩ [] := by rfl
 
 /-- … and an unrecognised character is a parse error at that character -/
 example : parse (exCtx ['€']) = .error ⟨.failedToParseEntireInput, (0, 3), none⟩ [] := by rfl
